@@ -8,9 +8,12 @@
   `InCheck(mover)` (Model/MoveGen.lean), for arbitrary Zobrist key tables `K`.
   Rule-book side: `Rules.legal` / `Rules.legalMoves` on the abstraction `abs b` (Spec/Rules.lean).
   Engine move words are compared with rule-book moves through `decodeMove` / `encodeMove`.
+  Closure: `valid_make` — the successor of a valid position by a playable move is valid (clock side
+  condition explicit), hence every position `Reachable` by play from a valid position is in the domain.
   (Property theorems + non-vacuity examples only; proofs in Proofs/AbsMake*.lean, Proofs/Playable*.lean.)
 -/
 import ChessVerif.Proofs.PlayableList
+import ChessVerif.Proofs.PlayableReach
 import ChessVerif.Props.C02core
 
 namespace ChessVerif.Props.C01
@@ -78,6 +81,51 @@ theorem playable_length (K : Keys) {b : Board} (hv : Board.valid b = true) :
     (MoveGen.playable K b).length = (Rules.legalMoves (abs b)).length := by
   rw [← (playable_perm_legal K hv).length_eq, List.length_map]
 
+/-! ### closure: "loaded from FEN or reached by playing moves" -/
+
+/-- **closure (`valid_make`)**: the successor of a valid position by a playable move is valid — one
+    king each (kings are never captured), pawns off the first/last ranks, promoted-material bound,
+    side not to move not in check, castling right ⇒ king and rook at home, en-passant geometry,
+    representation invariant, fullmove ≥ 1, clock ≥ 0 — provided the halfmove clock stays ≤ 100
+    (the only clause that can fail: the domain of the properties bounds the clock by 100). -/
+theorem valid_make (K : Keys) {b : Board} {m : Move} (hv : Board.valid b = true) (hm : m ∈ MoveGen.playable K b)
+    (hclock : (b.makeMove K m).1.fifty ≤ 100) : Board.valid (b.makeMove K m).1 = true :=
+  Playable.valid_make K hv hm hclock
+
+/-- the closure statement at full strength, as a closed proposition … -/
+def C01_closure_full : Prop :=
+  ∀ (K : Keys) (b : Board) (m : Move), Board.valid b = true → m ∈ MoveGen.playable K b →
+    (b.makeMove K m).1.fifty ≤ 100 → Board.valid (b.makeMove K m).1 = true
+
+/-- … which holds (no clause is left open). -/
+theorem C01_closure_full_holds : C01_closure_full := fun K _ _ hv hm hc => valid_make K hv hm hc
+
+/-- the clock condition holds whenever the clock of the position itself is below 100. -/
+theorem valid_make_of_clock_lt (K : Keys) {b : Board} {m : Move} (hv : Board.valid b = true)
+    (hm : m ∈ MoveGen.playable K b) (hclock : b.fifty < 100) : Board.valid (b.makeMove K m).1 = true :=
+  Playable.valid_make K hv hm (Playable.make_fifty_le K hv hclock)
+
+/-- every position reached from a valid one by playable moves (clock ≤ 100 throughout) is valid … -/
+theorem valid_reachable (K : Keys) {b b' : Board} (hv : Board.valid b = true) (h : Playable.Reachable K b b') :
+    Board.valid b' = true := Playable.valid_reachable K hv h
+
+/-- … so **C01 holds in every reached position**: playable = legal, no move twice. -/
+theorem playable_eq_legal_reachable (K : Keys) {b b' : Board} (hv : Board.valid b = true)
+    (h : Playable.Reachable K b b') (m : Move) :
+    m ∈ MoveGen.playable K b' ↔
+      m < 32768 ∧ Rules.legal (abs b') (decodeMove m) = true ∧ encodeMove (decodeMove m) = m :=
+  playable_eq_legal K (valid_reachable K hv h) m
+
+theorem playable_perm_legal_reachable (K : Keys) {b b' : Board} (hv : Board.valid b = true)
+    (h : Playable.Reachable K b b') :
+    ((MoveGen.playable K b').map decodeMove).Perm (Rules.legalMoves (abs b')) :=
+  playable_perm_legal K (valid_reachable K hv h)
+
+/-- the executable reading of `Reachable`: a line of moves played with `playLine` (each move checked
+    to be playable and to keep the clock ≤ 100). -/
+theorem reachable_playLine (K : Keys) {b b' : Board} (ms : List Move) (h : Playable.playLine K b ms = some b') :
+    Playable.Reachable K b b' := Playable.reachable_playLine K ms h
+
 /-! ### non-vacuity -/
 
 open C05 (start rich)
@@ -105,10 +153,79 @@ example (K : Keys) : Move.mk 48 57 2 ∈ MoveGen.playable K rich :=
 example : Rules.isCastling (abs rich) (decodeMove (Move.mk 4 6 0)) = true := by decide +kernel
 example : Rules.isEnPassant (abs rich) (decodeMove (Move.mk 36 43 0)) = true := by decide +kernel
 
--- the filter is not vacuous: with the e-file opened (`4k3/8/8/8/8/8/4r3/4K2R` style) a pseudo-legal
--- move that leaves the king attacked is rejected by both sides.  Here: in `rich`, promotion bits on a
--- non-promotion are illegal, hence not playable.
+-- promotion bits on a non-promotion are illegal, hence not playable
 example (K : Keys) : Move.mk 36 43 5 ∉ MoveGen.playable K rich := fun h =>
   absurd ((playable_eq_legal K rich_valid _).1 h).2.1 (by decide +kernel)
+
+/-- the king-safety filter is not vacuous: White Ke1 Be2, Black Re8 Kh8, White to move — the bishop
+    is pinned on the e-file. -/
+def pinned : Board :=
+  { sq := (Vector.replicate 64 Piece.none) |>.set 4 .king |>.set 12 .bishop |>.set 60 .rook |>.set 63 .king,
+    pieces := #v[0, 0, 0, bit 12, bit 60, 0, bit 4 ||| bit 63],
+    colors := #v[bit 4 ||| bit 12, bit 60 ||| bit 63],
+    hashes := [], fullMoves := 1, stm := .white, ep := 0, castles := 0#4, fifty := 0 }
+
+theorem pinned_valid : Board.valid pinned = true := by decide +kernel
+
+-- Be2-d3 is generated (pseudo-legal) but neither legal nor playable; Be2-e3?? is not a bishop move;
+-- the king move Ke1-d1 is legal and playable
+example : Move.mk 12 19 0 ∈ MoveGen.gen pinned :=
+  C02core.mem_gen_of_rules pinned_valid (by decide) (by decide +kernel) (by decide)
+example : Rules.legal (abs pinned) (decodeMove (Move.mk 12 19 0)) = false := by decide +kernel
+example (K : Keys) : Move.mk 12 19 0 ∉ MoveGen.playable K pinned := fun h =>
+  absurd ((playable_eq_legal K pinned_valid _).1 h).2.1 (by decide +kernel)
+example (K : Keys) : Move.mk 4 3 0 ∈ MoveGen.playable K pinned :=
+  (playable_eq_legal K pinned_valid _).2 ⟨by decide, by decide +kernel, by decide⟩
+
+-- closure: the hypotheses of `valid_make` hold for the en-passant capture, castling and the promotion
+-- in `rich` (any key table), so the successors are valid and C01 applies to them again
+theorem rich_ep_playable (K : Keys) : Move.mk 36 43 0 ∈ MoveGen.playable K rich :=
+  (playable_eq_legal K rich_valid _).2 ⟨by decide, rich_ep_legal, by decide⟩
+example (K : Keys) : Board.valid (rich.makeMove K (Move.mk 36 43 0)).1 = true :=
+  valid_make_of_clock_lt K rich_valid (rich_ep_playable K) (by decide)
+example (K : Keys) : Board.valid (rich.makeMove K (Move.mk 4 6 0)).1 = true :=
+  valid_make_of_clock_lt K rich_valid
+    ((playable_eq_legal K rich_valid _).2 ⟨by decide, rich_castle_legal, by decide⟩) (by decide)
+example (K : Keys) : Board.valid (rich.makeMove K (Move.mk 48 57 2)).1 = true :=
+  valid_make_of_clock_lt K rich_valid
+    ((playable_eq_legal K rich_valid _).2 ⟨by decide, rich_under_legal, by decide⟩) (by decide)
+
+-- a reached position two plies deep (e5xd6, then …Ke8-d7) with concrete keys: `Reachable` is inhabited
+-- beyond `refl`, `playLine` accepts the line, and C01 holds in the reached position
+/-- `rich` after e5xd6. -/
+def rich1 : Board := (rich.makeMove zeroKeys (Move.mk 36 43 0)).1
+/-- … and after the reply Ke8-d7. -/
+def rich2 : Board := (rich1.makeMove zeroKeys (Move.mk 60 51 0)).1
+
+theorem rich1_valid : Board.valid rich1 = true :=
+  valid_make_of_clock_lt zeroKeys rich_valid (rich_ep_playable zeroKeys) (by decide)
+theorem rich1_reply : Move.mk 60 51 0 ∈ MoveGen.playable zeroKeys rich1 :=
+  (playable_eq_legal zeroKeys rich1_valid _).2 ⟨by decide, by decide +kernel, by decide⟩
+theorem rich1_clock : rich1.fifty ≤ 100 := by decide +kernel
+theorem rich2_clock : rich2.fifty ≤ 100 := by decide +kernel
+
+theorem rich2_reachable : Playable.Reachable zeroKeys rich rich2 :=
+  Playable.Reachable.step (Playable.Reachable.step Playable.Reachable.refl (rich_ep_playable zeroKeys) rich1_clock)
+    rich1_reply rich2_clock
+
+example : Playable.playLine zeroKeys rich [Move.mk 36 43 0, Move.mk 60 51 0] = some rich2 := by
+  simp only [Playable.playLine]
+  rw [if_pos ⟨rich_ep_playable zeroKeys, rich1_clock⟩]
+  exact if_pos ⟨rich1_reply, rich2_clock⟩
+
+example : Board.valid rich2 = true := valid_reachable zeroKeys rich_valid rich2_reachable
+example : rich2.fullMoves = 2 ∧ rich2.stm = Color.white ∧ rich2.pieceAt 35 = Piece.none := by decide +kernel
+example : ((MoveGen.playable zeroKeys rich2).map decodeMove).Perm (Rules.legalMoves (abs rich2)) :=
+  playable_perm_legal_reachable zeroKeys rich_valid rich2_reachable
+
+-- the clock side condition of `valid_make` cannot be dropped: with the clock at 100 a quiet move leaves
+-- the domain (clock 101), although the move is playable and everything else is preserved
+/-- `pinned` with the halfmove clock at 100. -/
+def pinned100 : Board := { pinned with fifty := 100 }
+theorem pinned100_valid : Board.valid pinned100 = true := by decide +kernel
+example : Move.mk 4 3 0 ∈ MoveGen.playable zeroKeys pinned100 :=
+  (playable_eq_legal zeroKeys pinned100_valid _).2 ⟨by decide, by decide +kernel, by decide⟩
+example : (pinned100.makeMove zeroKeys (Move.mk 4 3 0)).1.fifty = 101 ∧
+    Board.valid (pinned100.makeMove zeroKeys (Move.mk 4 3 0)).1 = false := by decide +kernel
 
 end ChessVerif.Props.C01
